@@ -171,6 +171,20 @@ def check(prog, rep, tier):
                 if mv:
                     want = [canon(("phi", ("cmp", ">", mv[0], num), num, mv[0])), canon(("phi", ("cmp", ">=", mv[0], num), num, mv[0])),
                             canon(("call", ("g", "min"), (mv[0], num), ()))]
+                stmt_ok = False
+                if True:
+                    # statement form: the amount is num_els or the minimum, chosen by a comparison of the two on this path
+                    cmpc = [c for c in p.conds if strip_epochs(c.atom)[0] == "cmp" and strip_epochs(c.atom)[1] in (">", ">=", "<", "<=")
+                            and num in (strip_epochs(c.atom)[2], strip_epochs(c.atom)[3])
+                            and any(n[0] == "call" and n[1] == ("g", "min") for n in walk(c.atom))]
+                    if cmpc:
+                        a_ = strip_epochs(cmpc[0].atom)
+                        mexp = a_[2] if a_[3] == num else a_[3]
+                        min_gt = (a_[1] in (">", ">=")) == (a_[2] == mexp)  # atom says  minimum > num_els  (or >=)
+                        holds = min_gt == cmpc[0].truth
+                        stmt_ok = (holds and canon(amt) == canon(num)) or (not holds and canon(amt) == canon(mexp))
+                if stmt_ok:
+                    continue
                 if not mv or canon(amt) not in want:
                     rep.bad("C08.cbf-symmetry", f"{CB}.remove_alt", f"amount {nshow(amt)}",
                             f"remove subtracts {nshow(amt)}; expected min(num_els, current minimum of the key's cells): removing what was added must restore the cells", e.where())
